@@ -955,6 +955,7 @@ func (gqm *GroupQuotaManager) OnPodUpdate(newQuotaName, oldQuotaName string, new
 					gqm.updatePodUsedNoLock(newQuotaName, nil, newPod)
 				}
 			}
+			quotaInfo.refreshPodIfPresent(newPod)
 		} else {
 			if quotaInfo.IsPodExist(oldPod) {
 				// remove the old resource.
@@ -1000,6 +1001,11 @@ func (gqm *GroupQuotaManager) OnPodDelete(quotaName string, pod *v1.Pod) {
 	quotaInfo := gqm.getQuotaInfoByNameNoLock(quotaName)
 	if quotaInfo == nil || !quotaInfo.IsPodExist(pod) {
 		return
+	}
+	// give back what this quota accounted for the pod: the delivered object may be newer than the last one
+	// that was routed to this quota (a pod waiting in the default quota for its migration)
+	if cachedPod := quotaInfo.getCachedPod(pod); cachedPod != nil {
+		pod = cachedPod
 	}
 
 	gqm.updatePodRequestNoLock(quotaName, pod, nil)
